@@ -6,7 +6,7 @@ mkdir -p /verif/build
 if [ "$REPO" = /repo ]; then
   CR=/verif/bounded; TD=/verif/build/bounded-target
 else
-  CR=/verif/build/bounded-scratch; TD=/verif/build/bounded-target-scratch
+  CR=/verif/build/bounded-scratch${VERIF_SCRATCH_TAG:-}; TD=/verif/build/bounded-target-scratch${VERIF_SCRATCH_TAG:-}
   rm -rf $CR; mkdir -p $CR
   cp -r /verif/bounded/src /verif/bounded/.cargo $CR/
   sed "s#path = \"/repo\"#path = \"$REPO\"#" /verif/bounded/Cargo.toml > $CR/Cargo.toml
